@@ -19,6 +19,17 @@ func (r *Rng) Intn(n int) int {
 	}
 	return int(r.U64() % uint64(n))
 }
+func (r *Rng) Perm(n int) []int {
+	p := make([]int, n)
+	for i := range p {
+		p[i] = i
+	}
+	for i := n - 1; i > 0; i-- {
+		j := r.Intn(i + 1)
+		p[i], p[j] = p[j], p[i]
+	}
+	return p
+}
 func (r *Rng) Range(lo, hi int) int  { return lo + r.Intn(hi-lo+1) }
 func (r *Rng) Chance(p float64) bool { return float64(r.U64()%1000000)/1000000.0 < p }
 func (r *Rng) Pick(ws []int) int {
@@ -461,6 +472,31 @@ func (g *gen) stmtUpdate(db *MDB, t *MTable, small bool) Stmt {
 		v := int64(g.r.Intn(int(g.tags[db.Name+"."+t.Name]) + 1))
 		s.Where = &Cond{Cmps: []Cmp{{"k", "=", Int(v)}}}
 		s.Set = []SetItem{{"k", Int(v)}}
+		return s
+	}
+	if len(t.Rows) > 0 && g.r.Chance(0.1) {
+		// name EVERY column, the tag column too (it keeps its value), in any order
+		r0 := t.Rows[g.r.Intn(len(t.Rows))]
+		tag := r0.Vals[t.ColIdx("k")]
+		s.Where = &Cond{Cmps: []Cmp{{"k", "=", tag}}}
+		order := g.r.Perm(len(t.Cols))
+		for _, i := range order {
+			c := t.Cols[i]
+			if c.Name == "k" {
+				s.Set = append(s.Set, SetItem{"k", tag})
+				continue
+			}
+			b := 0
+			if c.Type == TVarchar {
+				b = 40
+			}
+			s.Set = append(s.Set, SetItem{c.Name, g.genVal(c, text, b)})
+		}
+		if text {
+			if _, ok := s.SQLText(); !ok || !condTextOK(s.Where) {
+				s.ViaText = false
+			}
+		}
 		return s
 	}
 	n := g.r.Range(1, len(cand))
@@ -1316,6 +1352,9 @@ func (g *gen) pickKnobs() Knobs {
 	}
 	if pf.LazyWakeP > 0 && g.r.Chance(pf.LazyWakeP) {
 		k.LazyWake = true
+		if g.r.Chance(0.12) {
+			k.SlowWriteAt = g.r.Range(1, 30)
+		}
 	}
 	if len(pf.FlushMargins) > 0 {
 		k.FlushMargin = pf.FlushMargins[g.r.Intn(len(pf.FlushMargins))]
@@ -1465,7 +1504,11 @@ func Generate(pf *Profile, seed uint64) *Plan {
 		if i < len(stmts) {
 			st = models[i+1]
 		}
-		p.Images = append(p.Images, ImageSel{Site: SiteBoundary, Stmt: i, Cont: g.genCont(st, 1)})
+		sel := ImageSel{Site: SiteBoundary, Stmt: i, Cont: g.genCont(st, 1)}
+		if r.Chance(0.06) {
+			sel.GhostDir = []string{"aaa", "ghost1", "zzz", "db0", "lostfound"}[r.Intn(5)]
+		}
+		p.Images = append(p.Images, sel)
 	}
 	if pf.WalStmts > 0 {
 		// prefer statements that append many records: multi-row statements and,
